@@ -304,7 +304,9 @@ class Signal(np.lib.mixins.NDArrayOperatorsMixin):
     @property
     def sample_rate(self):
         """Sample rate of the signal."""
-        return self._sample_rate
+        # (a copy: the stored value must not be changed from outside, e.g.
+        # by ``x = z.sample_rate; x *= 2``)
+        return self._sample_rate.copy()
 
     @sample_rate.setter
     def sample_rate(self, sample_rate):
@@ -586,7 +588,9 @@ class RadioSignal(Signal):
     @property
     def center_freq(self):
         """Center frequency."""
-        return self._center_freq
+        # (a copy: the stored value must not be changed from outside, e.g.
+        # by ``x = z.center_freq; x *= 2``)
+        return self._center_freq.copy()
 
     @center_freq.setter
     def center_freq(self, center_freq):
@@ -616,7 +620,9 @@ class RadioSignal(Signal):
     @property
     def chan_bw(self):
         """Channel bandwidth."""
-        return self._chan_bw
+        # (a copy: the stored value must not be changed from outside, e.g.
+        # by ``x = z.chan_bw; x *= 2``)
+        return self._chan_bw.copy()
 
     @chan_bw.setter
     def chan_bw(self, chan_bw):
@@ -864,24 +870,29 @@ class BasebandSignal(RadioSignal):
     @property
     def sample_rate(self):
         """Sample rate of the signal (equal to the channel bandwidth)."""
-        return self._sample_rate
+        # (a copy: the stored value must not be changed from outside, e.g.
+        # by ``x = z.sample_rate; x *= 2``)
+        return self._sample_rate.copy()
 
     @sample_rate.setter
     def sample_rate(self, sample_rate):
         Signal.sample_rate.fset(self, sample_rate)
         if hasattr(self, "_chan_bw"):
-            self._chan_bw = self._sample_rate
+            self._chan_bw = self._sample_rate.copy()
 
     @property
     def chan_bw(self):
         """Channel bandwidth (equal to the sample rate)."""
-        return self._chan_bw
+        # (a copy: the stored value must not be changed from outside, e.g.
+        # by ``x = z.chan_bw; x *= 2``)
+        return self._chan_bw.copy()
 
     @chan_bw.setter
     def chan_bw(self, chan_bw):
         RadioSignal.chan_bw.fset(self, chan_bw)
-        if not u.isclose(self._chan_bw, self._sample_rate, rtol=1e-14):
-            self._chan_bw = self._sample_rate
+        equal = u.isclose(self._chan_bw, self._sample_rate, rtol=1e-14)
+        self._chan_bw = self._sample_rate.copy()
+        if not equal:
             raise ValueError("chan_bw of a baseband signal equals its sample_rate.")
 
     def to_intensity(self):
